@@ -152,7 +152,7 @@ Theorem run_test_bracket w o l t b s :
     /\ Forall (is_inner_ev t) mid
     /\ (t_deco b = false -> exists mid', mid = EPhase t 0 0 :: mid').
 Proof.
-  unfold run_test. destruct (fold_effect w o l t (proto b) s) as [_ [_ [_ [_ [_ [_ Hev]]]]]]. rewrite Hev. clear Hev.
+  unfold run_test. cbn [add_run rs_ev]. destruct (fold_effect w o l t (proto b) s) as [_ [_ [_ [_ [_ [_ Hev]]]]]]. rewrite Hev. clear Hev.
   destruct (proto_shape b) as [[Hd ->]|[Hd [mid [-> Hin]]]].
   - exists [EResult t RSkip 0]. simpl. rewrite app_nil_r, <- !app_assoc. simpl. split; [reflexivity|].
     split; [repeat constructor | congruence].
@@ -270,7 +270,7 @@ Definition run_all (ts : list (nat * test)) (s : rstate) : rstate :=
   fold_left (fun s it => run_test w o l (fst it) (snd it) s) ts s.
 
 Lemma run_test_stop t b s : rs_stop (run_test w o l t b s) = rs_stop s || (o_x o && bad_b b).
-Proof. unfold run_test. destruct (fold_effect w o l t (proto b) s) as [_ [_ [_ [_ [_ [H _]]]]]]. exact H. Qed.
+Proof. unfold run_test. cbn [add_run rs_stop]. destruct (fold_effect w o l t (proto b) s) as [_ [_ [_ [_ [_ [H _]]]]]]. exact H. Qed.
 
 Lemma run_seq_stopped ts s : rs_stop s = true -> run_seq w o l ts s = s.
 Proof. intros H. destruct ts as [|[t b] r]; simpl; [reflexivity | now rewrite H]. Qed.
@@ -313,9 +313,25 @@ Proof.
   destruct p; try discriminate; simpl; auto.
 Qed.
 
+(* everything a test execution does to the result object *)
+Lemma run_test_effect t b s :
+  let s' := run_test w o l t b s in
+  rs_run s' = rs_run s + 1 + (t_count b - 1) /\
+  rs_fail s' = rs_fail s ++ flat_map (p_fail t) (proto b) /\ rs_err s' = rs_err s ++ flat_map (p_err t) (proto b) /\
+  rs_skip s' = rs_skip s + fold_right (fun p a => p_skip p + a) 0 (proto b) /\
+  rs_us s' = rs_us s ++ flat_map (p_us t) (proto b) /\
+  rs_stop s' = rs_stop s || (o_x o && existsb p_bad (proto b)) /\
+  rs_ev s' = rs_ev s ++ flat_map (p_ev w l t) (proto b).
+Proof.
+  unfold run_test. cbn [add_run rs_run rs_fail rs_err rs_skip rs_us rs_stop rs_ev].
+  destruct (fold_effect w o l t (proto b) s) as [H1 [H2 [H3 [H4 [H5 [H6 H7]]]]]]. rewrite H1, proto_runs_once. auto 10.
+Qed.
+
+Definition run_count (it : nat * test) : nat := 1 + (t_count (snd it) - 1).
+
 Theorem run_all_counts : forall ts s,
   let s' := run_all ts s in
-  rs_run s' = rs_run s + length ts /\
+  rs_run s' = rs_run s + fold_right (fun it a => run_count it + a) 0 ts /\
   rs_fail s' = rs_fail s ++ flat_map fail_names ts /\
   rs_err s' = rs_err s ++ flat_map err_names ts /\
   rs_us s' = rs_us s ++ flat_map us_names ts /\
@@ -324,10 +340,10 @@ Proof.
   induction ts as [|[t b] r IH]; intros s; simpl.
   - rewrite ?app_nil_r, ?Nat.add_0_r. auto.
   - destruct (IH (run_test w o l t b s)) as [G1 [G2 [G3 [G4 G5]]]]. unfold run_all in *. simpl.
-    rewrite G1, G2, G3, G4, G5. unfold run_test.
-    destruct (fold_effect w o l t (proto b) s) as [H1 [H2 [H3 [H4 [H5 _]]]]].
-    rewrite H1, H2, H3, H4, H5, proto_runs_once. rewrite <- !app_assoc.
-    unfold fail_names, err_names, us_names, skip_count. simpl. repeat split; lia.
+    rewrite G1, G2, G3, G4, G5.
+    destruct (run_test_effect t b s) as [H1 [H2 [H3 [H4 [H5 _]]]]].
+    rewrite H1, H2, H3, H4, H5. rewrite <- !app_assoc.
+    unfold fail_names, err_names, us_names, skip_count, run_count. simpl. repeat split; lia.
 Qed.
 End S.
 
